@@ -29,7 +29,10 @@
    exactly the legal operations.
 
    The constants Fix16/Fix17/Fix17b/Fix18 select, at four sites, between the code as found
-   (FALSE) and the minimal repairs of fixes/F16..F18 (TRUE); see docs/notes/C14.md. *)
+   (FALSE) and the minimal repairs of fixes/F16..F18 (TRUE); see docs/notes/C14.md.  F16 and F18
+   are applied to the repository; F17/F17b are open known findings: with Fix17 / Fix17b = FALSE
+   the ghost `kf` is set by the operation that leaves a delete timer behind = the cause, the
+   invariants are required up to that point and such states are not explored further. *)
 EXTENDS Integers, Sequences, FiniteSets, TLC, Json
 
 CONSTANTS Indices,   \* entry indices (names)
@@ -54,9 +57,11 @@ VARIABLES now,     \* ctx block height
           res,     \* result class of the last operation ("ok","err","found","notfound","refused","")
           ref,     \* reference map: [Indices -> [version -> [data, eff, del, held, lp]]]
           rres,    \* result class according to the reference
+          kf,      \* "" or the open known finding whose cause just happened ("F17" / "F17b"): a future
+                   \* version carrying a pending delete was discarded and its delete timer left behind
           nops, hist
 
-vars == <<now, ents, live, timers, panic, res, ref, rres, nops, hist>>
+vars == <<now, ents, live, timers, panic, res, ref, rres, kf, nops, hist>>
 
 Max(S) == CHOOSE x \in S : \A y \in S : y <= x
 Min(S) == CHOOSE x \in S : \A y \in S : x <= y
@@ -81,8 +86,9 @@ GetFor(E, h, b) ==
 FindIn(E, h, b) == LET v == GetFor(E, h, b) IN
                    IF v = -1 THEN -1 ELSE IF IsDeletedBy(E[v], b) THEN -1 ELSE v
 
-\* threaded store state: e = ents, t = timers, i = live, p = panic
-St(e, t, i, p) == [e |-> e, t |-> t, i |-> i, p |-> p]
+\* threaded store state: e = ents, t = timers, i = live, p = panic, k = known-finding cause
+St(e, t, i, p) == [e |-> e, t |-> t, i |-> i, p |-> p, k |-> ""]
+Known(s, why)  == IF s.k = "" THEN [s EXCEPT !.k = why] ELSE s
 Oops(s, why)   == IF s.p = "" THEN [s EXCEPT !.p = why] ELSE s
 SetE(s, x, v, rec) == [s EXCEPT !.e[x] = Put1(@, v, rec)]
 
@@ -110,7 +116,7 @@ CancelFuture(s, h, x, v) ==
                     IF HasDeleteAt(s1.e[x][w]) THEN s1 ELSE
                     AddTimer(SetE(s1, x, w, [s1.e[x][w] EXCEPT !.del = e.del]), h, <<e.del, DEL, w, x>>)
      IN IF s2.p # "" THEN s2 ELSE PutFuture(s2, x, v)
-  ELSE PutFuture(s, x, v)
+  ELSE PutFuture(IF HasDeleteAt(e) THEN Known(s, "F17b") ELSE s, x, v)   \* as found: the delete timer stays behind
 
 \* putEntry(entry) where rec is the (possibly modified) entry object the caller holds
 PutEntry(s, h, x, v, rec) ==
@@ -134,7 +140,10 @@ TrimList(s, x, vs) ==
   IF vs = {} \/ s.p # "" THEN s
   ELSE LET v  == Max(vs)
            e  == s.e[x][v]
-           s1 == IF Fix17 /\ HasDeleteAt(e) THEN DelTimer(s, <<e.del, DEL, v, x>>) ELSE s
+           s1 == IF HasDeleteAt(e)
+                 THEN (IF Fix17 THEN DelTimer(s, <<e.del, DEL, v, x>>)
+                       ELSE Known(s, "F17"))              \* as found: the delete timer stays behind
+                 ELSE s
        IN TrimList(IF s1.p # "" THEN s1 ELSE PutFuture(s1, x, v), x, vs \ {v})
 Trim(s, h, x, d) == TrimList(s, x, {v \in DOMAIN s.e[x] : v >= d /\ (Fix16 => v > h)})
 
@@ -298,8 +307,8 @@ RCancel(R, v) ==
 
 -----------------------------------------------------------------------------
 \* ===== actions =============================================================
-Cur == St(ents, timers, live, panic)
-Install(s) == /\ ents' = s.e /\ timers' = s.t /\ live' = s.i /\ panic' = s.p
+Cur == [St(ents, timers, live, panic) EXCEPT !.k = kf]
+Install(s) == /\ ents' = s.e /\ timers' = s.t /\ live' = s.i /\ panic' = s.p /\ kf' = s.k
 Record(r) == hist' = IF GenHist THEN Append(hist, r) ELSE hist
 Step(a, x, b, d) == Record([a |-> a, x |-> x, b |-> b, d |-> d])
 
@@ -364,7 +373,7 @@ Tick ==
 
 Init == /\ now = 1
         /\ ents = [x \in Indices |-> EmptyMap] /\ live = [x \in Indices |-> "none"]
-        /\ timers = {} /\ panic = "" /\ res = "" /\ rres = ""
+        /\ timers = {} /\ panic = "" /\ res = "" /\ rres = "" /\ kf = ""
         /\ ref = [x \in Indices |-> EmptyMap]
         /\ nops = 0 /\ hist = <<>>
 
@@ -378,8 +387,11 @@ Ops == \/ \E x \in Indices, b \in Near, d \in Data : LegalAppend(x, b) /\ Append
        \/ \E x \in Indices : CanGet(x) /\ GetEntry(x)
        \/ \E x \in Indices : \E v \in DOMAIN ref[x] : PutEntryA(x, v)
        \/ \E x \in Indices, b \in Near : DelEntry(x, b)
-Next == \/ (nops < MaxOps /\ Ops /\ nops' = nops + 1)
-        \/ (now < MaxBlock /\ Tick /\ UNCHANGED nops)
+\* a state in which the cause of an open known finding just happened is not explored further: from
+\* there on the store holds a delete timer for a version that does not exist
+Next == /\ kf = ""
+        /\ \/ (nops < MaxOps /\ Ops /\ nops' = nops + 1)
+           \/ (now < MaxBlock /\ Tick /\ UNCHANGED nops)
 Spec == Init /\ [][Next]_vars
 
 -----------------------------------------------------------------------------
@@ -395,17 +407,17 @@ Puttable == {q \in Indices \X (0..(MaxBlock + 2)) : PutLegal(q[1], q[2])}
 GPut    == IF Puttable # {} THEN \E q \in One(Puttable) : PutEntryA(q[1], q[2]) ELSE Tick
 GDel    == \E x \in One(Indices), b \in One({c \in Near : c >= now}) : DelEntry(x, b)
 GenNext == /\ nops < MaxOps /\ nops' = nops + 1 /\ panic = ""
-           /\ \E k \in One(1..12) :
+           /\ \E k \in One(IF kf = "" THEN 1..12 ELSE {12}) :
               CASE k <= 3 -> GAppend
                 [] k = 4 -> GModify
                 [] k = 5 \/ k = 6 -> GGet
                 [] k = 7 -> GPut
                 [] k = 8 \/ k = 9 -> GDel
                 [] OTHER -> Tick
-Emit == nops < MaxOps \/ PrintT(<<"BEH", ToJson(hist)>>)
+Emit == (nops < MaxOps /\ panic = "") \/ PrintT(<<"BEH", ToJson(hist)>>)
 \* exhaustive candidate emission: the history of every state violating a property (FixNN = FALSE runs)
-Bad == panic # "" \/ res = "refused"
-EmitBad == ~Bad \/ PrintT(<<"BEH", ToJson([h |-> hist, why |-> IF panic # "" THEN panic ELSE "refused"])>>)
+Bad == panic # "" \/ res = "refused" \/ kf # ""
+EmitBad == ~Bad \/ PrintT(<<"BEH", ToJson([h |-> hist, why |-> IF kf # "" THEN kf ELSE IF panic # "" THEN panic ELSE "refused"])>>)
 
 -----------------------------------------------------------------------------
 \* ===== observables and properties (C14) ====================================
@@ -418,26 +430,29 @@ GetAns(x)  == FindAns(x, now)
 RGetAns(x) == RFindAns(x, now)
 Vers(x)    == DOMAIN ents[x]
 
+\* Sound: no panic and no open-known-finding cause so far
+Sound == panic = "" /\ kf = ""
 NoPanic == panic = ""
+NoKnown == kf = ""
 \* every lookup answer equals the reference map's
-Refines == panic = "" => \A x \in Indices : \A b \in QB : FindAns(x, b) = RFindAns(x, b)
+Refines == Sound => \A x \in Indices : \A b \in QB : FindAns(x, b) = RFindAns(x, b)
 \* error results agree
-ResAgree == panic = "" => res = rres \/ (res = "refused" /\ rres = "ok")
+ResAgree == Sound => res = rres \/ (res = "refused" /\ rres = "ok")
 \* physical garbage collection removes only invisible versions, and never invents one
-GCSafe == panic = "" => \A x \in Indices :
+GCSafe == Sound => \A x \in Indices :
             /\ Vers(x) \subseteq DOMAIN ref[x]
             /\ \A v \in DOMAIN ref[x] : RVisible(ref[x], now, v) => v \in Vers(x)
 \* the stored refcount is exactly: references handed out + one while current or future
-RefcountExact == panic = "" => \A x \in Indices : \A v \in Vers(x) :
+RefcountExact == Sound => \A x \in Indices : \A v \in Vers(x) :
             ents[x][v].ref = ref[x][v].held + (IF RSupAt(ref[x], v) > now THEN 1 ELSE 0)
 \* a Put of a held reference is never refused
 PutNotRefused == res = "refused" => FALSE
 \* internal sanity (code-level)
 OneLatest  == \A x \in Indices : Cardinality({v \in Vers(x) : ents[x][v].latest}) <= 1
-TimersSane == panic = "" => \A tm \in timers : tm[1] > now /\ (tm[2] # STL => tm[3] \in Vers(tm[4]))
-LiveSane   == panic = "" => \A x \in Indices : (live[x] = "none") <=> (Vers(x) = {})
+TimersSane == Sound => \A tm \in timers : tm[1] > now /\ (tm[2] # STL => tm[3] \in Vers(tm[4]))
+LiveSane   == Sound => \A x \in Indices : (live[x] = "none") <=> (Vers(x) = {})
 TypeOK == /\ now \in 1..(MaxBlock + 1)
           /\ \A x \in Indices : \A v \in Vers(x) : ents[x][v].ref >= 0
 
-View == <<now, ents, live, timers, panic, res, ref, rres, nops>>
+View == <<now, ents, live, timers, panic, res, ref, rres, kf, nops>>
 =============================================================================
